@@ -263,6 +263,27 @@ def install(I):
         I.write(st, r.cell, r.path, Agg(v.ty, v.fields + (args[1],)))
         return I.ret(st, UNIT)
 
+    @M(r'^Vec::<.*>::resize$|^VecDeque::<.*>::resize$', 'Vec::resize')
+    def m_resize(I, st, f, args, fr):
+        r = args[0]
+        v = coll_ref(I, st, r, ('Vec', 'VecDeque'), 'Vec')
+        n = int_of(I, st, args[1]).concrete()
+        if n is None or n > 64:
+            raise Unmodelled('symbolic / large Vec::resize')
+        items = list(v.fields[:n]) + [args[2]] * max(0, n - len(v.fields))
+        I.write(st, r.cell, r.path, Agg(v.ty, items))
+        return I.ret(st, UNIT)
+
+    @M(r'^Vec::<.*>::truncate$|^VecDeque::<.*>::truncate$', 'Vec::truncate')
+    def m_truncate(I, st, f, args, fr):
+        r = args[0]
+        v = coll_ref(I, st, r, ('Vec', 'VecDeque'), 'Vec')
+        n = int_of(I, st, args[1]).concrete()
+        if n is None:
+            raise Unmodelled('symbolic Vec::truncate')
+        I.write(st, r.cell, r.path, Agg(v.ty, v.fields[:n]))
+        return I.ret(st, UNIT)
+
     @M(r'^VecDeque::<.*>::push_front$', 'VecDeque::push_front')
     def m_push_front(I, st, f, args, fr):
         r = args[0]
